@@ -188,6 +188,8 @@ M("c15-biweight-axis", "C15", ST, "    return astrostats.biweight_scale(data, ax
 
 # ---- C16
 RF = "sigpyproc/core/rfi.py"
+M("c16-file-drops-pointing", "C16", RF, '            fp.attrs["azimuth"] = self.header.azimuth.deg\n', '            fp.attrs["azimuth"] = 0.0\n', "original defect repaired by ec4efef (pointing lost in the mask file)")
+M("c16-file-coord-swapped", "C16", RF, '            fp.attrs["coord"] = [coord.ra.deg, coord.dec.deg]', '            fp.attrs["coord"] = [coord.dec.deg % 360.0, max(-90.0, min(90.0, coord.ra.deg - 180.0))]', "sky position mangled in the mask file")
 M("c16-funcn-and", "C16", RF, "        self.chan_mask = np.logical_or(self.chan_mask, self.custom_mask)", "        self.chan_mask = np.logical_and(self.chan_mask, self.custom_mask)")
 M("c16-mask-open-interval", "C16", RF, "                self.header.chan_freqs >= freq_range[0],\n                self.header.chan_freqs <= freq_range[1],", "                self.header.chan_freqs >= freq_range[0],\n                self.header.chan_freqs < freq_range[1],")
 M("c16-mask-replaces", "C16", RF, "        self.user_mask = user_mask\n        self.chan_mask = np.logical_or(self.chan_mask, user_mask)", "        self.user_mask = user_mask\n        self.chan_mask = np.logical_or(self.stats_mask, user_mask)", "apply_mask forgets the custom mask")
